@@ -113,7 +113,7 @@ def dominated_by(cfg, node, candidates, dom=None):
     return bool(dom[node.id] & (cids - {node.id})) or node.id in cids
 
 
-def count_on_paths(cfg, start, is_event, count_labels=("next", "true", "false"), labels=None, cap=2):
+def count_on_paths(cfg, start, is_event, count_labels=("next", "true", "false"), labels=None, cap=2, edge_ok=None):
     """forward dataflow: for every node, the set of possible numbers (capped) of event nodes whose
     outgoing edge (with a label in count_labels) was taken on a path from `start` to the *entry* of
     that node. Returns dict node id -> frozenset of counts."""
@@ -126,6 +126,8 @@ def count_on_paths(cfg, start, is_event, count_labels=("next", "true", "false"),
         ev = is_event(n)
         for t, l in n.succ:
             if labels is not None and l not in labels:
+                continue
+            if edge_ok is not None and not edge_ok(n, t, l):
                 continue
             if ev and l in count_labels:
                 out = frozenset(min(c + 1, cap) for c in cur)
@@ -171,7 +173,7 @@ def node_defs(n):
 
 class ReachingDefs:
     """var -> set of defining node ids at the entry of each node; parameters are defined at entry (-1)"""
-    def __init__(self, cfg, labels=None):
+    def __init__(self, cfg, labels=None, edge_ok=None):
         self.cfg = cfg
         f = cfg.func
         prm = set()
@@ -193,6 +195,8 @@ class ReachingDefs:
             d = defs[n.id]
             for t, l in n.succ:
                 if labels is not None and l not in labels:
+                    continue
+                if edge_ok is not None and not edge_ok(n, t, l):
                     continue
                 if d and l != "exc":
                     out = frozenset((v, k) for (v, k) in cur if v not in d) | frozenset((v, n.id) for v in d)
@@ -331,3 +335,62 @@ def dominating_conditions(cfg, node, dom=None, labels=("next", "true", "false"))
         elif via["false"] and not via["true"]:
             out.append((t, False))
     return out
+
+
+# ---------------------------------------------------------------------------- partial evaluation under a valuation
+def valuation_edges(decide):
+    """edge filter for the queries above: at a test node for which decide(node) returns True/False only the consistent
+    edge is followed (None = unknown, both edges). Exceptional edges are always kept."""
+    cache = {}
+
+    def edge_ok(a, b, l):
+        if a.kind == "test" and l in ("true", "false"):
+            if a.id not in cache:
+                cache[a.id] = decide(a)
+            d = cache[a.id]
+            if d is True and l == "false":
+                return False
+            if d is False and l == "true":
+                return False
+        return True
+    return edge_ok
+
+
+def reach_under(starts, decide, normal_only=True):
+    ok = valuation_edges(decide)
+    return reach_ef(starts, lambda a, b, l: (l != "exc" or not normal_only) and ok(a, b, l))
+
+
+def var_const_decider(fold, var, value, aliases=()):
+    """decide(test) for tests comparing the local `var` (or an alias) with constants: ==, !=, is, is not, in, not in.
+    fold(expr) -> constant or None."""
+    import ast as _ast
+    names = {var} | set(aliases)
+
+    def decide(node):
+        e = node.ast
+        if isinstance(e, _ast.Compare) and len(e.ops) == 1:
+            l, r, op = e.left, e.comparators[0], e.ops[0]
+            if isinstance(l, _ast.Name) and l.id in names:
+                other = fold(r)
+                flip = False
+            elif isinstance(r, _ast.Name) and r.id in names and isinstance(op, (_ast.Eq, _ast.NotEq, _ast.Is, _ast.IsNot)):
+                other = fold(l)
+                flip = True
+            else:
+                return None
+            if other is None and not (isinstance(r if not flip else l, _ast.Constant)):
+                return None
+            try:
+                if isinstance(op, (_ast.Eq, _ast.Is)):
+                    return value == other
+                if isinstance(op, (_ast.NotEq, _ast.IsNot)):
+                    return value != other
+                if isinstance(op, _ast.In):
+                    return value in other
+                if isinstance(op, _ast.NotIn):
+                    return value not in other
+            except TypeError:
+                return None
+        return None
+    return decide
